@@ -2,6 +2,7 @@ import Martian.Dataflow
 import Martian.Resolver
 import Martian.ResolverStatic
 import Martian.ResolverStaticCheck
+import Martian.ResolverStaticTree
 import Driver.Util
 
 /-!
@@ -334,25 +335,26 @@ def idxText : Idx → String
 
 /-- `fs`: the `fork` annotations above (rendered inside the references they qualify, like
 the known indices of `RefExp.Forks`; sorted by call id, innermost annotation wins) -/
-partial def printRF (fs : List (String × Idx)) : RExp → String
+partial def printRF (table : List (String × List String)) (fs : List (String × Idx)) : RExp → String
   | .lit j => "(lit " ++ printJV j ++ ")"
-  | .arr xs => "(arr" ++ String.join (xs.map fun x => " " ++ printRF fs x) ++ ")"
+  | .arr xs => "(arr" ++ String.join (xs.map fun x => " " ++ printRF table fs x) ++ ")"
   | .map kvs => "(map" ++ kvText kvs ++ ")"
   | .struct kvs => "(st" ++ kvText kvs ++ ")"
   | .ref node _ path =>
     "(ref " ++ node ++
-      String.join ((sortKV (fs.map fun e => (e.1, idxText e.2))).map fun e => " (fk " ++ e.1 ++ " " ++ e.2 ++ ")") ++
+      String.join ((sortKV ((fs.filter fun e => ((table.lookup node).getD []).contains e.1).map fun e =>
+        (e.1, idxText e.2))).map fun e => " (fk " ++ e.1 ++ " " ++ e.2 ++ ")") ++
       String.join (path.map fun p => " " ++ p) ++ ")"
-  | .split c _ e => "(split " ++ c ++ " " ++ printRF fs e ++ ")"
-  | .merge c _ e => "(merge " ++ c ++ " " ++ printRF fs e ++ ")"
-  | .disabled d v => "(dis " ++ printRF fs d ++ " " ++ printRF fs v ++ ")"
-  | .fork c ix e => printRF ((c, ix) :: fs.filter fun x => x.1 != c) e
+  | .split c _ e => "(split " ++ c ++ " " ++ printRF table fs e ++ ")"
+  | .merge c _ e => "(merge " ++ c ++ " " ++ printRF table fs e ++ ")"
+  | .disabled d v => "(dis " ++ printRF table fs d ++ " " ++ printRF table fs v ++ ")"
+  | .fork c ix e => printRF table ((c, ix) :: fs.filter fun x => x.1 != c) e
 where
   kvText (kvs : List (String × RExp)) : String :=
-    String.join ((sortKV (kvs.map fun kv => (hexOfStr kv.1, printRF fs kv.2))).map fun kv =>
+    String.join ((sortKV (kvs.map fun kv => (hexOfStr kv.1, printRF table fs kv.2))).map fun kv =>
       " (kv " ++ kv.1 ++ " " ++ kv.2 ++ ")")
 
-def printR : RExp → String := printRF []
+def printR (table : List (String × List String)) : RExp → String := printRF table []
 
 partial def hasFork : RExp → Bool
   | .lit _ => false
@@ -367,33 +369,45 @@ partial def hasFork : RExp → Bool
 
 def fqid (path : List String) : String := ".".intercalate path
 
-def printStatic (s : RB × List SNode) : String :=
-  "(cg" ++ String.join (s.2.map fun n =>
-    " (node " ++ fqid n.path ++ " (forks" ++ String.join (n.forks.map fun d => " " ++ d.1) ++ ")" ++
+/-- `table`: node name ↦ the fork roots it depends on (what the compiler prints) -/
+def printStatic (table : List (String × List String)) (out : RExp) (nodes : List SNode) : String :=
+  "(cg" ++ String.join (nodes.map fun n =>
+    " (node " ++ fqid n.path ++ " (forks" ++
+      String.join (((table.lookup (fqid n.path)).getD []).map fun d => " " ++ d) ++ ")" ++
       String.join (n.inputs.map fun kv =>
-      s!" (in {kv.1} {kv.2.ty.base} {kv.2.ty.mapDim} {kv.2.ty.arrDim} " ++ printR kv.2.exp ++ ")") ++ ")") ++
-  " (out " ++ printR s.1.exp ++ "))"
+        s!" (in {kv.1} {kv.2.ty.base} {kv.2.ty.mapDim} {kv.2.ty.arrDim} " ++ printR table kv.2.exp ++ ")") ++ ")") ++
+  " (out " ++ printR table out ++ "))"
+
+def noDisabled (P : Program) : Bool :=
+  Call.plain P.top && P.callables.all fun c =>
+    match c.2 with
+    | .stage _ _ => true
+    | .pipeline _ _ calls _ => calls.all fun c => c.disabled.isNone
+
+def sameRun (a b : J × List Inst) : Bool :=
+  render a.1 == render b.1 && a.2.length == b.2.length &&
+    (a.2.zip b.2).all fun p => renderKey p.1.key == renderKey p.2.key && render p.1.args == render p.2.args
 
 def staticReply (P : Program) (obs : Option Obs) : String :=
-  if !Program.mapsOfStages P then "skip not-plain" else
-  let s := staticProgram P fqid
-  if s.2.any (fun n => n.forks.any fun d => d.2.isEmpty) then "skip map-source-not-static" else
-  if s.2.any (fun n => !n.forks.isEmpty && n.inputs.any fun kv =>
-      match kv.2.exp with
-      | .split _ _ e => hasFork e
-      | _ => false) then "skip map-source-depends-on-map-call" else
-  let frag := wellTypedGB P && acyclicB P.table && staticProgramOk P fqid &&
-    decide ((s.2.map fun n => fqid n.path).Nodup)
+  if !noDisabled P then "skip not-plain" else
+  let s := staticProgramT P fqid
+  if !treeOkList [] s.2 then "skip map-source-not-static" else
+  let nodes := flattenTList [] s.2
+  let table := goForksTable fqid nodes []
+  -- the hypotheses of the proved refinement (they speak about the flat static phase of
+  -- Martian/ResolverStatic.lean: map calls of stages only)
+  let frag := Program.mapsOfStages P && wellTypedGB P && acyclicB P.table && staticProgramOk P fqid &&
+    decide (((staticProgram P fqid).2.map fun n => fqid n.path).Nodup)
   let (denV, rtV) :=
     match obs with
     | none => ("na", "na")
     | some obs =>
       let O : Oracle := oracleOf obs.outs
-      let ρ := storeOfNodes fqid s.2 O
+      let ρ := storeOfNodes fqid nodes O
       let d := den P O
-      let t := twoPhaseM P fqid ρ
-      let same := render d.1 == render t.1 && d.2.length == t.2.length &&
-        (d.2.zip t.2).all fun p => renderKey p.1.key == renderKey p.2.key && render p.1.args == render p.2.args
+      let t := twoPhaseT P fqid ρ
+      let same := sameRun d t &&
+        (!frag || sameRun d (twoPhaseM P fqid (storeOfNodes fqid (staticProgram P fqid).2 O)))
       let jobDiff := obs.jobs.findSome? fun j =>
         if j.chunk then none else
         match t.2.find? (fun i => covers j.inst i.key) with
@@ -403,7 +417,8 @@ def staticReply (P : Program) (obs : Option Obs) : String :=
         ((fieldsOf t.1).filter fun kv => !obs.skip.contains kv.1)
         ((fieldsOf obs.top).filter fun kv => !obs.skip.contains kv.1)
       (if same then "eq" else "neq", match jobDiff.orElse (fun _ => topDiff) with | some d => d | none => "ok")
-  "\t".intercalate ["static", s!"frag={if frag then 1 else 0}", "den=" ++ denV, "rt=" ++ rtV, printStatic s]
+  "\t".intercalate ["static", s!"frag={if frag then 1 else 0}", "den=" ++ denV, "rt=" ++ rtV,
+    printStatic table s.1.exp nodes]
 
 end static
 
